@@ -222,6 +222,44 @@ Definition srun_eqb (xs : vec) (ops : list sop) (hs : list handle)
   let (f, k) := srun xs ops in
   list_eqb vapproxb (map (hread f) hs) expect && list_eqb Bool.eqb k oks.
 
+
+(* ---------- ReactionSet.reduce ---------- *)
+(* rxn = first.copy(); for i in rest: rxn += i     (one reactant group) *)
+Fixpoint fold_add (mws : vec) (acc : rxn) (rs : list rxn) : res rxn :=
+  match rs with
+  | [] => Ok acc
+  | b :: t => match radd mws acc b with Ok c => fold_add mws c t | Err e => Err e end
+  end.
+
+(* groups are (first, rest) pairs; the reduced set is the list of folded reactions *)
+Fixpoint reduce_groups (mws : vec) (gs : list (rxn * list rxn)) : res (list rxn) :=
+  match gs with
+  | [] => Ok []
+  | (a, rs) :: t =>
+      match fold_add mws a rs with
+      | Err e => Err e
+      | Ok c => match reduce_groups mws t with Ok cs => Ok (c :: cs) | Err e => Err e end
+      end
+  end.
+
+Fixpoint members (gs : list (rxn * list rxn)) : list rxn :=
+  match gs with [] => [] | (a, rs) :: t => (a :: rs) ++ members t end.
+
+(* the set's members with the conversions the set holds now *)
+Fixpoint set_Xs (rs : list rxn) (xs : vec) : list rxn :=
+  match rs, xs with
+  | r :: rt, x :: xt => set_X r x :: set_Xs rt xt
+  | _, _ => []
+  end.
+
+(* groups given as index lists into the set (first index: the member that is copied) *)
+Definition pick_list (rs : list rxn) (g : list nat) : list rxn :=
+  flat_map (fun j => match nth_error rs j with Some r => [r] | None => [] end) g.
+Definition pick (rs : list rxn) (g : list nat) : list (rxn * list rxn) :=
+  match pick_list rs g with [] => [] | a :: t => [(a, t)] end.
+Definition reduce_sel (mws : vec) (rs : list rxn) (gs : list (list nat)) : res (list rxn) :=
+  reduce_groups mws (flat_map (pick rs) gs).
+
 (* ---------- comparison helpers for the correspondence files ---------- *)
 Definition rxn_eqb (a b : rxn) : bool :=
   vapproxb (st a) (st b) && Nat.eqb (ridx a) (ridx b) && qapproxb (X a) (X b)
@@ -241,3 +279,10 @@ Fixpoint set_conv (rs : list rxn) (xs : vec) (feed acc : vec) : vec :=
   end.
 Definition set_acts_eqb (rs : list rxn) (xs : vec) (feed : vec) (expect : vec) : bool :=
   vapproxb (set_conv rs xs feed (vzero (length feed))) expect.
+
+(* reduce(): the implementation's reduced set against the model's, for the grouping the implementation used *)
+Definition reduce_eqb (mws : vec) (rs : list rxn) (xs : vec) (gs : list (list nat)) (expect : list rxn) : bool :=
+  match reduce_sel mws (set_Xs rs xs) gs with
+  | Ok cs => store_eqb cs expect
+  | Err _ => false
+  end.
